@@ -155,16 +155,110 @@ def save_structure(ctx, R="R-C17-save-guard"):
     ctx.check(ok, R, f, first, "saving without accumulated statistics raises ValueError before any file is touched",
               "save does not begin with `if not self.have_stats: raise ValueError`")
     R2 = "R-C17-suffix-twins"
-    disp = body[1] if len(body) > 1 else None
-    ctx.need(isinstance(disp, ast.If), R2, "suffix dispatch not found in save")
-    t1 = astq.text(disp.test).replace(" ", "")
-    ok = t1 == "wfilename.endswith('.npy')" and len(disp.body) == 1 and astq.eq_text(disp.body[0], "np.save(wfilename,self._stats)")
-    ctx.check(ok, R2, f, disp, ".npy targets are written with np.save(wfilename, stats)", ".npy branch is %s -> %s" % (t1, astq.text(disp.body[0])[:60]))
-    npz = disp.orelse[0] if disp.orelse and isinstance(disp.orelse[0], ast.If) else None
-    ctx.need(npz is not None and astq.eq_text(npz.test, "wfilename.endswith('.npz')"), R2, ".npz branch not found")
-    raw = npz.orelse
-    ok = len(raw) == 1 and astq.eq_text(raw[0], "self._stats.tofile(wfilename)")
-    ctx.check(ok, R2, f, raw[0] if raw else MISSING(npz), "any other target is written raw with stats.tofile(wfilename)", "raw branch is %s" % [astq.text(s)[:60] for s in raw])
+    fname = f.params[1]
+    pm = astq.parents(f)
+    defs = {}
+    for n_ in f.body_nodes():
+        if isinstance(n_, ast.Assign) and len(n_.targets) == 1 and isinstance(n_.targets[0], ast.Name):
+            defs.setdefault(n_.targets[0].id, []).append(n_.value)
+
+    def inline(e, depth=0):
+        if isinstance(e, ast.Name) and e.id != fname and len(defs.get(e.id, ())) == 1 and depth < 4:
+            return inline(defs[e.id][0], depth + 1)
+        return e
+
+    def mentions_name(e):
+        return any(isinstance(x, ast.Name) and (x.id == fname or (len(defs.get(x.id, ())) == 1 and mentions_name(defs[x.id][0]))) for x in ast.walk(e))
+
+    def suffix_pred(test):
+        """(ext, exact) for a test that selects names by suffix; None when the test does not involve the file name."""
+        if not mentions_name(test):
+            return None
+        t = test
+        ext, base = None, None
+        if isinstance(t, ast.Call) and isinstance(t.func, ast.Attribute) and t.func.attr == "endswith" and len(t.args) == 1:
+            ext, base = astq.const_str(t.args[0]), inline(t.func.value)
+        elif isinstance(t, ast.Compare) and len(t.ops) == 1 and isinstance(t.ops[0], ast.Eq):
+            l, r = inline(t.left), inline(t.comparators[0])
+            if astq.const_str(l) is not None:
+                l, r = r, l
+            ext = astq.const_str(r)
+            base = l
+            folded_outer = False
+            while isinstance(base, ast.Call) and isinstance(base.func, ast.Attribute) and base.func.attr in ("lower", "upper", "casefold") and not base.args:
+                folded_outer = True
+                base = inline(base.func.value)
+            if isinstance(base, ast.Subscript) and ext is not None and astq.text(base.slice) == "-%d:" % len(ext):
+                base = inline(base.value)
+            elif isinstance(base, ast.Subscript) and astq.text(base.slice) in ("1", "-1") and isinstance(base.value, ast.Call) and \
+                    (prog.qualify(f.module, base.value.func, f) or "") == "os.path.splitext" and base.value.args:
+                base = inline(base.value.args[0])
+            else:
+                ext = None
+            if folded_outer and ext is not None:
+                return (ext.lower(), False)
+        if ext is None:
+            raise AnalysisError("%s: cannot classify the file-name test `%s`" % (R2, astq.text(test)[:80]))
+        folded = False
+        while isinstance(base, ast.Call) and isinstance(base.func, ast.Attribute) and base.func.attr in ("lower", "upper", "casefold", "strip") and not base.args:
+            folded = True
+            base = inline(base.func.value)
+        if not astq.is_name(base, fname):
+            raise AnalysisError("%s: cannot classify the file-name test `%s`" % (R2, astq.text(test)[:80]))
+        return (ext.lower(), (not folded) and ext in (".npy", ".npz"))
+
+    def path_preds(node):
+        out = []
+        child = node
+        for a in astq.ancestors(pm, node):
+            if isinstance(a, ast.If):
+                sp = suffix_pred(a.test)
+                if sp is not None:
+                    in_body = any(child is x_ for x_ in a.body)
+                    out.append((sp, in_body, a))
+            child = a
+        return out
+
+    writers = {"npy": [], "npz": [], "raw": []}
+    for c in astq.func_calls(f):
+        q = prog.qualify(f.module, c.func, f) or ""
+        if q == "numpy.save":
+            writers["npy"].append(c)
+        elif q in ("numpy.savez", "numpy.savez_compressed"):
+            writers["npz"].append(c)
+        elif astq.attr_call(c, "tofile"):
+            writers["raw"].append(c)
+    ctx.need(all(writers.values()), R2, "save no longer has np.save, np.savez* and tofile writers: %s" % {k: len(v) for k, v in writers.items()})
+    WHY = ("numpy appends its own suffix unless the name ends with exactly '%s' (case-sensitive), so for a name selected by this test but not "
+           "ending so the statistics go to a different file than the one named, and reloading the named file fails")
+    for kindw, calls_ in writers.items():
+        for c in calls_:
+            preds = path_preds(c)
+            pos = [(sp, a) for sp, inb, a in preds if inb]
+            neg = [(sp, a) for sp, inb, a in preds if not inb]
+            if kindw == "raw":
+                exts = {sp[0] for sp, a in neg}
+                ctx.check(not pos and {".npy", ".npz"} <= exts, R2, f, astq.enclosing_stmt(pm, c),
+                          "every name that is not a .npy / .npz target is written raw with tofile",
+                          "tofile is reached under suffix tests +%s -%s" % ([sp for sp, a in pos], sorted(exts)))
+                ctx.check(astq.eq_text(c, "self._stats.tofile(%s)" % fname), R2, f, astq.enclosing_stmt(pm, c), "the raw writer writes the whole matrix to the named file",
+                          "raw writer is %s" % astq.text(c)[:80])
+                continue
+            want = "." + kindw
+            ctx.check(len(pos) == 1 and pos[0][0][0] == want, R2, f, astq.enclosing_stmt(pm, c),
+                      "%s targets (and only they) are written with numpy's %s writer" % (want, kindw),
+                      "numpy's %s writer is reached under suffix tests %s" % (kindw, [sp for sp, a in pos]))
+            if len(pos) == 1 and pos[0][0][0] == want:
+                ctx.check(pos[0][0][1], R2, f, pos[0][1], "the %s test is the exact, case-sensitive suffix test numpy itself applies" % want,
+                          "`%s` selects names that do not end with exactly '%s': " % (astq.text(pos[0][1].test)[:60], want) + WHY % want)
+            ctx.check(astq.is_name(c.args[0], fname) if c.args else False, R2, f, astq.enclosing_stmt(pm, c), "numpy's writer is given the file name unchanged",
+                      "numpy's %s writer is given %s" % (kindw, astq.text(c.args[0])[:60] if c.args else None))
+            if kindw == "npy":
+                ctx.check(len(c.args) == 2 and astq.eq_text(c.args[1], "self._stats"), R2, f, astq.enclosing_stmt(pm, c), "np.save stores the statistics matrix",
+                          "np.save stores %s" % (astq.text(c.args[1])[:60] if len(c.args) > 1 else None))
+    npzs = [a for sp, inb, a in path_preds(writers["npz"][0]) if inb and sp[0] == ".npz"]
+    ctx.need(npzs, R2, ".npz branch not found")
+    npz = npzs[0]
     st = [n for n in ast.walk(npz) if isinstance(n, ast.Assign) and isinstance(n.targets[0], ast.Subscript) and astq.text(n.value) == "self._stats"]
     ok = len(st) == 1 and astq.text(st[0].targets[0].slice) == "key"
     ctx.check(ok, R2, f, st[0] if st else MISSING(npz), "the statistics matrix is stored in the archive under `key`")
@@ -172,7 +266,6 @@ def save_structure(ctx, R="R-C17-save-guard"):
     kinds = {prog.qualify(f.module, c.func, f) for c in sv}
     ok = kinds == {"numpy.savez", "numpy.savez_compressed"} and all(astq.text(c.args[0]) == "wfilename" and any(k.arg is None for k in c.keywords) for c in sv)
     ctx.check(ok, R2, f, npz, "the archive is rewritten with savez / savez_compressed(wfilename, **entries) according to `compress`")
-    pm = astq.parents(f)
     for c in sv:
         g = [a for a in astq.ancestors(pm, c) if isinstance(a, ast.If) and astq.text(a.test) == "compress"]
         want_body = prog.qualify(f.module, c.func, f) == "numpy.savez_compressed"
